@@ -109,7 +109,7 @@ def make_serde(name):
     return Rev()
 
 
-VALUES_OBJ = [b"bytes\r\nEND\r\n", "text \xe9€", 0, -7, 2 ** 70, True, None, 3.5, (1, "a", b"b"), {"k": [1, 2, {"z": b"\r\n"}]}, b"x" * 5000, "y" * 5000, [], frozenset([1, 2])]
+VALUES_OBJ = [b"bytes\r\nEND\r\n", "text \xe9€", 0, -7, 2 ** 70, 10 ** 450 + 12345, -(7 ** 300), "z" * 600 + "\xe9", True, None, 3.5, (1, "a", b"b"), {"k": [1, 2, {"z": b"\r\n"}]}, b"x" * 5000, "y" * 5000, [], frozenset([1, 2])]
 
 
 def subclass_values():
